@@ -448,10 +448,15 @@ func runC18(c *Ctx, idx int64) {
 	}
 }
 
-// needsQuotes: a commodity symbol that is not made of letters and currency signs only is quoted.
+// needsQuotes: a commodity symbol is written bare only when it is a word (letters only) or one of
+// the currency signs the lexer reads by themselves; everything else is quoted.
 func needsQuotes(sym string) bool {
-	for _, r := range sym {
-		if !unicode.IsLetter(r) && !unicode.Is(unicode.Sc, r) {
+	rs := []rune(sym)
+	if len(rs) == 1 && strings.ContainsRune("$€£¥₽₴", rs[0]) {
+		return false
+	}
+	for _, r := range rs {
+		if !unicode.IsLetter(r) {
 			return true
 		}
 	}
